@@ -153,6 +153,17 @@ def h_mutate(x, seed, kinds=("sub", "ins"), edit="none", nsym=1):
 
 
 ARGS = ["1", '"b1"', "'zz'", "[]", '["zz", 1]', "{}", "{'a': 1}", "x"]
+ARG_TYPES = ["int", "str", "str", "list", "list", "dict", "dict", "list"]
+# top-level parameter types of the built-ins as documented (own table; None = untyped / optional)
+PARAM_TYPES = {
+    "filter_keyvals": ["list", "str", "list"], "exclude_keyvals": ["list", "str", "list"], "filter_keyvals_regex": ["list", "str", "str"],
+    "filter_period_intersect": ["list", "list"], "period_union": ["list", "list"], "limit_events": ["list", "int"],
+    "merge_events_by_keys": ["list", "list"], "chunk_events_by_key": ["list", "str"], "sort_by_timestamp": ["list"], "sort_by_duration": ["list"],
+    "sum_durations": ["list"], "concat": ["list", "list"], "union_no_overlap": ["list", "list"], "flood": ["list"], "split_url_events": ["list"],
+    "simplify_window_titles": ["list", "str"], "categorize": ["list", "list"], "tag": ["list", "list"], "query_bucket": ["str"],
+    "query_bucket_eventcount": ["str"], "nop": [],
+}
+OPTIONAL_EXTRA = {"find_bucket": (["str"], 1)}  # required types, number of optional trailing parameters
 
 
 def h_misuse(x, maxargs=3):
@@ -165,11 +176,44 @@ def h_misuse(x, maxargs=3):
     args = [ARGS[x.choice("arg%d" % i, len(ARGS))] for i in range(k)]
     text = 'x = query_bucket("b1"); RETURN = %s(%s);' % (f, ", ".join(args))
     obl, obs = verdict(text)
+    req, nopt = (PARAM_TYPES[f], 0) if f in PARAM_TYPES else OPTIONAL_EXTRA.get(f, (None, 0))
+    if req is not None:
+        types = [ARG_TYPES[ARGS.index(a)] for a in args]
+        arity_ok = len(req) <= k <= len(req) + nopt
+        mismatch = any(t != r for t, r in zip(types, req))
+        outcome, detail = run_query(text)
+        if arity_ok and mismatch:
+            obl.append(("wrong-top-level-argument-type-is-a-function-error/%s" % f, outcome == "ok" and detail == "QueryFunctionException"))
+        if not arity_ok and not mismatch:
+            obl.append(("wrong-argument-count-is-an-interpret-error/%s" % f, outcome == "ok" and detail == "QueryInterpretException"))
     if f in ("query_bucket", "query_bucket_eventcount", "find_bucket") and args == ["'zz'"]:
         # an unknown bucket must be reported as a function error
         outcome, detail = run_query(text)
         obl.append(("unknown-bucket-is-a-function-error/%s" % f, outcome == "ok" and detail == "QueryFunctionException"))
     return obl, obs
+
+
+LONG_CASES = [("digits", 150), ("digits", 4300), ("digits", 4301), ("list", 150), ("list", 1500), ("dict", 150), ("dict", 1500), ("call", 150), ("call", 700), ("string", 150), ("string", 5000)]
+
+
+def h_long(x):
+    """inputs whose SIZE is the unusual part: a very long integer literal, very deep nesting of lists /
+    dicts / calls, a very long string — with one arbitrary character at the end of the core"""
+    candidates()
+    kind, n = LONG_CASES[x.choice("case", len(LONG_CASES))]
+    c = sstr.fresh_char(x, "c0")
+    if kind == "digits":
+        body = ["7"] * (n - 1) + [c]
+    elif kind == "list":
+        body = ["["] * n + [c] + ["]"] * n
+    elif kind == "dict":
+        body = list("{'a':" * n) + [c] + ["}"] * n
+    elif kind == "call":
+        body = list("nop(" * n) + [c] + [")"] * n
+    else:
+        body = ['"'] + ["a"] * n + [c, '"']
+    text = sstr.mk(list("RETURN = ") + body + [";"])
+    return verdict(text)
 
 
 CONTEXTS = ["%s", "RETURN=%s", "RETURN=nop(%s)", "RETURN=[%s]", "RETURN={%s}", "RETURN={'a':%s}", "RETURN=sum_durations(%s);"]
@@ -215,6 +259,7 @@ def harnesses(tier):
         for i, seed in enumerate(SHORT_SEEDS):
             hs.append((Harness(PROP, "mutate2-short%02d" % i, h_mutate, dict(seed=seed, nsym=2), "seed %r with two arbitrary characters substituted / inserted" % seed, split_depth=8), 3600))
     hs.append((Harness(PROP, "builtin-misuse", h_misuse, dict(maxargs=2 if tier == "quick" else 3), "every registered built-in with 0..%d arguments drawn from %d values of assorted types" % (2 if tier == "quick" else 3, len(ARGS)), split_depth=8), 1800))
+    hs.append((Harness(PROP, "long-inputs", h_long, {}, "integer literals of up to 4301 digits, lists / dicts nested 1500 deep, calls 700 deep, strings of 5000 characters, one arbitrary character inside", split_depth=6), 1800))
     lengths = [1, 2] if tier == "quick" else [1, 2, 3]
     for ci, ctx in enumerate(CONTEXTS):
         for L in lengths:
@@ -231,6 +276,7 @@ def meta(chk, tier):
         "%d seed programs (valid programs and the suite's malformed ones); every position: substitute by / insert one symbolic character ranging over ALL Unicode code points (surrogates excluded)" % len(SEEDS),
         "thorough: the same after a delete / duplicate / swap edit at every position; two symbolic characters on %d short seeds" % len(SHORT_SEEDS),
         "free strings of 1..2 (quick) / 1..3 (+4 bare) (thorough) symbolic characters alone and inside %d contexts" % (len(CONTEXTS) - 1),
+        "long inputs (kind, size): %s" % (LONG_CASES,),
         "each path limited to 30 s wall clock (a path that exceeds it is reported as non-termination)",
     ]
     chk.stubs = ["aw_query.query2.int -> sym_int (decimal digits; other symbolic chars -> ValueError like CPython)", "aw_query.functions.isinstance -> treats a symbolic integer as int",
